@@ -162,16 +162,20 @@ def _evaluate(ctx, cases, res):
     mods = (fresh_import(ctx.repo, 'aiorpcx.jsonrpc'), fresh_import(ctx.repo, 'aiorpcx.rawsocket'),
             fresh_import(ctx.repo, 'aiorpcx.session'))
 
-    async def go():
+    async def go(chunk):
         out = []
-        for c in cases:
+        for c in chunk:
             _prepare(c)
             try:
                 out.append(await run_scenario(mods, c))
             except (vloop.Deadlock, vloop.Livelock) as e:
                 out.append({'hang': type(e).__name__})
         return out
-    recs = vloop.run(go())
+    # the gated scenarios never advance the virtual clock: a fresh loop per chunk keeps the
+    # loop's no-progress counter (Livelock detection) about one chunk, not about the whole run
+    recs = []
+    for k in range(0, len(cases), 200):
+        recs += vloop.run(go(cases[k:k + 200]))
     lines, idx = [], []
     for k, (c, rec) in enumerate(zip(cases, recs)):
         sc = dict(c, layer='session')
